@@ -14,6 +14,26 @@ def A(enum, variant, **fields):
 ANY = ("any",)
 
 
+UNKNOWN = object()
+_WIDTH = {"isize": 64, "i64": 64, "i32": 32, "i16": 16, "i8": 8, "i128": 128}
+
+
+def _bound(p, which):
+    """Range end: a literal, absent (None: open), a std MIN / MAX constant, or UNKNOWN."""
+    if which not in p:
+        return None
+    b = p[which]
+    if isinstance(b, int) and not isinstance(b, bool):
+        return b
+    if isinstance(b, dict):
+        import re
+        m = re.search(r"(?:<impl )?(isize|i8|i16|i32|i64|i128)>?::(MAX|MIN)$", str(b.get("path") or b.get("def") or b.get("name") or ""))
+        if m:
+            w = _WIDTH[m.group(1)]
+            return 2 ** (w - 1) - 1 if m.group(2) == "MAX" else -2 ** (w - 1)
+    return UNKNOWN
+
+
 def pat_matches(p, v, binds=None):
     """True / False / None (cannot tell).  Bindings (HirId -> value) are recorded in `binds` when given."""
     k = p.get("p")
@@ -44,7 +64,9 @@ def pat_matches(p, v, binds=None):
     if k == "Range":
         if v[0] != "int":
             return None
-        lo, hi = p.get("lo"), p.get("hi")
+        lo, hi = _bound(p, "lo"), _bound(p, "hi")
+        if lo is UNKNOWN or hi is UNKNOWN:
+            return None
         if lo is not None and v[1] < lo:
             return False
         if hi is not None and (v[1] > hi or (v[1] == hi and p.get("end") != "Included")):
